@@ -39,6 +39,11 @@
  *      serve as rolling header reference, which changes header_update / clock_update flags).
  *  (d) at most two flips in every protected byte/triplet: every cached (pgno, subno) and
  *      every TTX_PAGE event names a page that the transmission contains.
+ *  (e) X/26 packet with an uncorrectable triplet (two flips in one Hamming 24/18 unit, address and
+ *      designation at most corrected): every cell of the page fetched at level 1.5 shows the character
+ *      of the fault free run or the character of the page without its X/26 packets - the triplets behind
+ *      the damaged one are dropped, not applied at another position ("corrected or contained"; the
+ *      property's anchor "X/26 ... triplets are dropped, not misplaced").  Added after seed C03-4.
  *
  * Deviations from DESIGN.md: flat enumeration inside pool cases instead of mc_choose()
  * (one "deviation" = one fault pattern on one packet; nothing is gained by prefix
@@ -630,6 +635,8 @@ struct cprobe {
         const uint8_t *earlier;        /* 40 (rows) / 32 (header text, column 8..39) transmitted characters or NULL */
         /* results */
         int seen, kept, blank, bad, bad_col; unsigned bad_char; int bad_step;
+        /* (e): capture the page as fetched at level 1.5 after the last packet */
+        int capture, cap_ok; uint16_t cap[25][40];
 };
 
 struct evctx { struct hx seq, keys; uint64_t set; int n; int nev; struct pgkey evk[64]; };
@@ -859,6 +866,11 @@ static void run_tx(const struct tx *t, const uint8_t *skip, int fk, const uint8_
                 }
                 if (pr && pr->active && i >= pr->from && i < pr->to) do_probe(vbi, pr, i);
         }
+        if (pr && pr->capture) {
+                static vbi_page cpg;
+                pr->cap_ok = vbi_fetch_vt_page(vbi, &cpg, pr->pgno, pr->subno, VBI_WST_LEVEL_1p5, 25, FALSE);
+                if (pr->cap_ok) for (int r = 0; r < 25; r++) for (int c = 0; c < 40; c++) pr->cap[r][c] = cpg.text[r * cpg.columns + c].unicode;
+        }
         take_snapshot(vbi, &ev, out);
         vbi_event_handler_unregister(vbi, on_event, &ev);
         vbi_decoder_delete(vbi);
@@ -954,6 +966,7 @@ struct casectx {
 };
 
 enum { CL_A, CL_BDROP, CL_BHDR, CL_C, CL_CHDR, CL_DONLY, CL_NONE };
+/* (e) is judged in addition to (d): X/26 packet, address and designation at most corrected, a triplet with two flips */
 
 static void mask_str(const uint8_t *m, char *o, size_t n)
 {
@@ -1228,6 +1241,29 @@ static void evaluate(struct casectx *cx, const uint8_t *mask, const char *family
                 break;
         default:
                 break;
+        }
+
+        /* (e) containment of an uncorrectable X/26 triplet: the triplets of the packet are "dropped, not misplaced" -
+         * every cell of the page as fetched at level 1.5 shows what the fault free run shows there or what the page
+         * shows without its X/26 packets (the level one character), never a third character. */
+        if (p->kind == PK_X26 && mragOK && (desig < 0 || f[desig] <= 1) && !over2 && !nOther && maxH == 2 && in && in->lop) {
+                static struct cprobe ef, eb, en;
+                memset(&ef, 0, sizeof ef); ef.capture = 1; ef.pgno = in->pgno; ef.subno = in->subno; eb = ef; en = ef;
+                struct snap s2; uint8_t skip[MAXP] = { 0 };
+                for (int i = 0; i < t->n; i++) if (t->p[i].inst == p->inst && t->p[i].kind == PK_X26) skip[i] = 1;
+                run_label = "faulted (capture)"; run_tx(t, NULL, k, mask, &ef, &s2);
+                run_label = "fault free (capture)"; run_tx(t, NULL, -1, NULL, &eb, &s2);
+                run_label = "without X/26 (capture)"; run_tx(t, skip, -1, NULL, &en, &s2);
+                if (ef.cap_ok && eb.cap_ok && en.cap_ok) {
+                        int bad = 0, br = 0, bc = 0;
+                        for (int r = 1; r < 25 && !bad; r++) for (int c = 0; c < 40; c++)
+                                if (ef.cap[r][c] != eb.cap[r][c] && ef.cap[r][c] != en.cap[r][c]) { bad = 1; br = r; bc = c; break; }
+                        if (bad) {
+                                mc_violation("(e) uncorrectable X/26 triplet: a cell shows neither the enhanced nor the level one character (triplets misplaced)",
+                                             "T=%s packet %d (page %03x.%04x) %s: row %d column %d shows U+%04x, fault free U+%04x, without X/26 U+%04x",
+                                             t->name, k, in->pgno, in->subno, ms, br, bc, ef.cap[br][bc], eb.cap[br][bc], en.cap[br][bc]);
+                        } else { mc_count("e_x26_containment_checked", 1); mc_outcome("(e) uncorrectable X/26 triplet: every cell enhanced as sent or level one"); }
+                } else if (eb.cap_ok && !ef.cap_ok) mc_outcome("(e) uncorrectable X/26 triplet: page not cached in the faulted run (contained)");
         }
 
         /* (d) */
